@@ -2,12 +2,13 @@ package main
 
 import (
 	"fmt"
-	"os"
 	"go/ast"
 	"go/constant"
 	"go/types"
+	"os"
 	"sort"
 	"strings"
+	"time"
 )
 
 type UnitResult struct {
@@ -31,6 +32,7 @@ func (w *World) unitName(d *Decl) string {
 func (w *World) verifyDecl(d *Decl) (res *UnitResult) {
 	res = &UnitResult{Name: w.unitName(d), Kind: d.Kind, Decl: d}
 	x := newExec(w, res.Name, d)
+	x.deadline = time.Now().Add(time.Duration(w.UnitBudget) * time.Second)
 	defer func() {
 		if r := recover(); r != nil {
 			if u, ok := r.(unsupported); ok {
@@ -470,7 +472,7 @@ func (x *Exec) verifyFuncPass(d *Decl, res *UnitResult, fd *ast.FuncDecl, fixed 
 				}
 			}
 			if sig.Results().Len() == 1 {
-				if _, ok := sig.Results().At(0).Type().Underlying().(*types.Pointer); ok && !d.nullable() {
+				if _, ok := sig.Results().At(0).Type().Underlying().(*types.Pointer); ok && !d.nullable() && !d.Sweep {
 					switch s := r.v.(type) {
 					case *StructV:
 						x.oblige("post", rs, mkNot(s.Nil), fd, "result != nil")
